@@ -112,7 +112,7 @@ VEq(a, b) ==
   IF a.t # b.t THEN FALSE
   ELSE CASE a.t = "arr" -> Len(a.a) = Len(b.a) /\ \A i \in 1..Len(a.a) : VEq(a.a[i], b.a[i])
          [] a.t = "obj" -> Len(a.o) = Len(b.o) /\ \A i \in 1..Len(a.o) : a.o[i].key = b.o[i].key /\ VEq(a.o[i].val, b.o[i].val)
-         [] a.t = "opq" -> a.id = b.id /\ a.seq
+         [] a.t = "opq" -> a.id = b.id /\ a.ty = b.ty /\ a.seq
          [] OTHER -> a = b
 
 \* Go type name printed in `found=` of ErrorTypeUnmatched is decided on the Go side from the tag
